@@ -713,6 +713,23 @@ def programs(part, evi):
                 if act_pair_ok(a1, a2, i, j):
                     for c in opt(COND_REP):
                         yield one_policy([stmt(_l(c), [a1, a2])])
+    elif part == "2e":
+        # the same entity used twice: ordered pairs of entity-referencing conditions that share a list name, as two
+        # statements of one policy and as two policies (first use may fix how a list is emitted for later uses)
+        def names_of(c):
+            if c[0] == "pfx":
+                return {(c[1], n) for n in c[2]}
+            if c[0] == "set":
+                return {(c[1], n) for n in c[3]}
+            if c[0] == "aspf":
+                return {("aspf", c[1])}
+            return set()
+        ent = [c for c in CONDS if names_of(c)]
+        for c1 in ent:
+            for c2 in ent:
+                if c1 is not c2 and names_of(c1) & names_of(c2):
+                    yield one_policy([stmt([c1], [], "allow", 10), stmt([c2], [], "allow", 20)])
+                    yield [{"name": "P1", "stmts": [stmt([c1], [])]}, {"name": "P2", "stmts": [stmt([c2], [])]}]
     elif part in ("2s", "2p"):
         singles = [([c], []) for c in CONDS] + [([], [a]) for a in ACTS]
         for c1, a1 in singles:
@@ -731,6 +748,7 @@ def blocks(tier, seed):
         bl += [{"part": "1s", "vendor": v, "ev": 0, "k": k, "n": 12} for k in range(12)]
         for evi in range(len(EVS)):
             bl.append({"part": "1r", "vendor": v, "ev": evi, "k": 0, "n": 1})
+        bl += [{"part": "2e", "vendor": v, "ev": 0, "k": k, "n": 4} for k in range(4)]
     if tier == "thorough":
         for v in range(len(VENDORS)):
             for evi in range(1, len(EVS)):
